@@ -173,4 +173,44 @@ mutual
         wcBFields env f fs rest
 end
 
+
+/-! ### C02–C04, completeness: the declarations are what the schema's types / properties / required lists ask for -/
+
+/-- `certShape env defs fuel ty s`: the declarations below `ty` are what the schema `s` (types, properties, required,
+    items; no value constraints) asks for: a struct with exactly the schema's properties as fields and at most
+    presence checks for keys the schema requires, slices for arrays, the four scalar types -/
+def certShape (env : Env) (defs : Spec.Defs) : Nat → GoTy → Schema → Bool
+  | 0, _, _ => false
+  | f + 1, ty, s =>
+    if s.node.ref ≠ "" then
+      (match Spec.refName s.node.ref with
+       | some name => (match alookup name defs with | some t => certShape env defs f ty t | none => false)
+       | none => false)
+    else match ty with
+      | .ptr t => certShape env defs f t s
+      | .named nm =>
+        (match env.resolve 8 nm with
+         | some d => (match d.body, d.ty with
+            | .plain vs m, .strct fs =>
+                d.hasMethod == m && (m || vs.isEmpty) && !d.ty.isFmt &&
+                s.node.types == ["object"] && s.node.enum.isNone && s.node.allOf.isEmpty && s.node.anyOf.isEmpty &&
+                !s.node.hasNot && s.node.addl.isNone &&
+                (fs.find? (fun fl => fl.name = "AdditionalProperties")).isNone &&
+                vs.all (fun v => match v with | .required k => s.node.required.contains k | _ => false) &&
+                fs.all (fun fl => (akeys s.node.props).contains fl.jsonKey) &&
+                s.node.props.all (fun p => match bindKey fs p.1 with
+                  | some fld => fld.jsonKey == p.1 && certShape env defs f fld.ty p.2
+                  | none => false)
+            | _, _ => false)
+         | none => false)
+      | .slice t =>
+        s.node.types == ["array"] && s.node.enum.isNone && s.node.allOf.isEmpty && s.node.anyOf.isEmpty && !s.node.hasNot &&
+        (match t with | .named _ => false | .int .u8 => false | _ => true) &&
+        (match s.node.items with | some it => certShape env defs f t it | none => false)
+      | .string => s.node.types == ["string"]
+      | .bool => s.node.types == ["boolean"]
+      | .float64 => s.node.types == ["number"]
+      | .int .int => s.node.types == ["integer"]
+      | _ => false
+
 end GJS
